@@ -31,6 +31,7 @@ type DispatchCase struct {
 	Enc    string `json:"enc"`
 	Expect string `json:"expect"`
 	Status int    `json:"status"` // op cases, responses: result status of the item
+	Ver    int    `json:"ver"`    // op cases: minor version of the message header
 	// objsrc cases
 	Carrier string `json:"carrier"`
 	Field   int    `json:"field"`
@@ -131,13 +132,31 @@ func typesByName() map[string]reflect.Type {
 	return res
 }
 
-func header(dir int) *refwire.Item {
+// libItemAt: the item as the library writes it under a message header of version 1.minor (members introduced later are left out)
+func libItemAt(tag int, minor int, v any) (*refwire.Item, error) {
+	enc := ttlv.NewTTLVEncoder()
+	enc.Struct(kmip.TagRequestMessage, func(x *ttlv.Encoder) {
+		x.Any(kmip.RequestHeader{ProtocolVersion: kmip.ProtocolVersion{ProtocolVersionMajor: 1, ProtocolVersionMinor: int32(minor)}, BatchCount: 1})
+		x.TagAny(tag, v)
+	})
+	root, err := refwire.Parse(enc.Bytes(), true)
+	if err != nil {
+		return nil, err
+	}
+	return root.Kids[1], nil
+}
+
+func header(dir int, minor ...int) *refwire.Item {
 	var it *refwire.Item
 	var err error
+	pv := kmip.V1_4
+	if len(minor) > 0 {
+		pv = kmip.ProtocolVersion{ProtocolVersionMajor: 1, ProtocolVersionMinor: int32(minor[0])}
+	}
 	if dir == 1 {
-		it, err = libItem(kmip.TagRequestHeader, kmip.RequestHeader{ProtocolVersion: kmip.V1_4, BatchCount: 1})
+		it, err = libItem(kmip.TagRequestHeader, kmip.RequestHeader{ProtocolVersion: pv, BatchCount: 1})
 	} else {
-		it, err = libItem(kmip.TagResponseHeader, kmip.ResponseHeader{ProtocolVersion: kmip.V1_4, TimeStamp: sampleTime, BatchCount: 1})
+		it, err = libItem(kmip.TagResponseHeader, kmip.ResponseHeader{ProtocolVersion: pv, TimeStamp: sampleTime, BatchCount: 1})
 	}
 	if err != nil {
 		panic(err)
@@ -145,12 +164,12 @@ func header(dir int) *refwire.Item {
 	return it
 }
 
-func message(dir int, item *refwire.Item) []byte {
+func message(dir int, item *refwire.Item, minor ...int) []byte {
 	tag := kmip.TagRequestMessage
 	if dir != 1 {
 		tag = kmip.TagResponseMessage
 	}
-	return refwire.Encode(structItem(tag, header(dir), item))
+	return refwire.Encode(structItem(tag, header(dir, minor...), item))
 }
 
 // viaEncoding converts the binary message generically (ttlv.Value, no typed dispatch) and decodes it with the
@@ -270,7 +289,7 @@ func TestDispatch(t *testing.T) {
 					}
 					sample := buildPayload(pl, full, i)
 					fixupPayload(sample)
-					payload, err = libItem(ptag, sample)
+					payload, err = libItemAt(ptag, c.Ver, sample)
 					if err != nil {
 						probs = append(probs, "harness:cannot-build-payload:"+err.Error())
 						continue
@@ -291,7 +310,7 @@ func TestDispatch(t *testing.T) {
 					}
 				}
 				kids = append(kids, payload)
-				bin := message(c.Dir, structItem(kmip.TagBatchItem, kids...))
+				bin := message(c.Dir, structItem(kmip.TagBatchItem, kids...), c.Ver)
 				msg, re, err := viaEncoding(c.Enc, bin, c.Dir)
 				if err != nil {
 					probs = append(probs, fmt.Sprintf("decode-error:0x%08X:%v", uint32(code), err))
